@@ -3,7 +3,7 @@
    recursively, such objects again - nested to any depth n.  The struct the generator declares for the root accepts a JSON object
    iff the object is valid under the schema (both directions), by induction on n over the one-level theorem [LevelP.level_exact]:
    the check attached to an object-valued property is the method of the nested struct, which is the statement one level down. *)
-From GJS Require Import Base Bounds IntSize Regex Schema GoType Ident Gen Exec Valid ExecP GenP CoreP MethodP LevelP.
+From GJS Require Import Base Bounds IntSize Regex Schema GoType Ident Gen Exec Valid ExecP GenP CoreP MethodP LevelP EnumP.
 
 Section Nested.
 Variable idf : str -> str.
@@ -46,7 +46,7 @@ Definition enum_leaf (p : schema) : Prop :=
   exists c vs, p = Sch c [] None false None [] [] /\ c_types c = [SString] /\ c_ref c = None /\ c_enum c = Some (map JStr vs) /\ vs <> [] /\
                c_default c = None /\ c_format c = None /\ c_min_len c = 0 /\ c_max_len c = 0 /\ c_pattern c = None.
 
-Definition leaf (p : schema) : Prop := str_leaf p \/ int_leaf p \/ bool_leaf p \/ num_leaf p \/ arr_leaf p \/ enum_leaf p \/ map_leaf p.
+Definition leaf (p : schema) : Prop := str_leaf p \/ int_leaf p \/ bool_leaf p \/ num_leaf p \/ arr_leaf p \/ enum_leaf p \/ map_leaf p \/ int_enum_leaf p.
 
 Lemma rmap_ev_strs (vs : list str) : rmap (fun v => match ev_of_json v with Some e => Done e | None => GUnmod end) (map JStr vs) = Done (map EVStr vs).
 Proof. induction vs as [|v r IH]; [reflexivity|]. cbn [map rmap ev_of_json rbind]. rewrite IH. reflexivity. Qed.
@@ -253,7 +253,7 @@ Fixpoint sobj (n : nat) (s : schema) : Prop :=
 Fixpoint dok (n : nat) (s : schema) (kv : list (str * json)) : Prop :=
   NoDup (map fst kv) /\
   forall k p x, In (k, p) (s_props s) -> lookup k kv = Some x ->
-    x <> JNull /\ (str_leaf p -> forall s0, x = JStr s0 -> utf8_len s0 = length s0) /\ (int_leaf p -> int_value x) /\ (arr_leaf p -> arr_value x) /\ (map_leaf p -> map_value x) /\
+    x <> JNull /\ (str_leaf p -> forall s0, x = JStr s0 -> utf8_len s0 = length s0) /\ (int_leaf p -> int_value x) /\ (arr_leaf p -> arr_value x) /\ (map_leaf p -> map_value x) /\ (int_enum_leaf p -> int_value x) /\
     match n with
     | O => True
     | S m => forall kv', x = JObj kv' ->
@@ -414,7 +414,7 @@ Qed.
 
 Lemma leaf_default_none p : leaf p -> c_default (s_con p) = None.
 Proof.
-  intros [Hl|[Hl|[Hl|[Hl|[Hl|[Hl|Hl]]]]]].
+  intros [Hl|[Hl|[Hl|[Hl|[Hl|[Hl|[Hl|Hl]]]]]]].
   - destruct Hl as (c & -> & _ & _ & _ & Hd & _); exact Hd.
   - destruct Hl as (c & m & -> & _ & _ & _ & Hd & _); exact Hd.
   - destruct Hl as (c & -> & _ & _ & _ & Hd); exact Hd.
@@ -422,6 +422,7 @@ Proof.
   - destruct Hl as (ik & c & it & -> & _ & _ & _ & Hd & _); exact Hd.
   - destruct Hl as (c & vs & -> & _ & _ & _ & _ & Hd & _); exact Hd.
   - destruct Hl as (ik & c & a & -> & _ & _ & _ & Hd & _); exact Hd.
+  - exact (int_enum_default_none p Hl).
 Qed.
 
 Lemma ref_default_none p x : ref_prop p x -> c_default (s_con p) = None.
@@ -443,7 +444,7 @@ Lemma level_with_leaves f fd fv self sub s scope t bb kv (other : schema -> Prop
   (forall k p, In (k, p) (s_props s) -> leaf p \/ (other p /\ c_default (s_con p) = None)) ->
   NoDup (map fst kv) ->
   (forall k p x, In (k, p) (s_props s) -> lookup k kv = Some x ->
-     x <> JNull /\ (str_leaf p -> forall s0, x = JStr s0 -> utf8_len s0 = length s0) /\ (int_leaf p -> int_value x) /\ (arr_leaf p -> arr_value x) /\ (map_leaf p -> map_value x)) ->
+     x <> JNull /\ (str_leaf p -> forall s0, x = JStr s0 -> utf8_len s0 = length s0) /\ (int_leaf p -> int_value x) /\ (arr_leaf p -> arr_value x) /\ (map_leaf p -> map_value x) /\ (int_enum_leaf p -> int_value x)) ->
   (forall fname k p ty bp, In (fname, (k, p)) (prop_names idf (s_props s)) -> In (k, p) (s_props s) -> other p -> fname <> [] ->
      gen (S f) MInline self false p (scope ++ fname) = Done (ty, bp) ->
      match lookup k kv with
@@ -460,7 +461,7 @@ Proof.
   - intros fname k p ty bp Hin Hgen.
     assert (Hinp : In (k, p) (s_props s)) by (unfold prop_names in Hin; apply in_combine_r in Hin; rewrite sort_props_In in Hin; exact Hin).
     pose proof (Hne _ _ Hin) as Hfn.
-    destruct (Hprops k p Hinp) as [[Hl|[Hl|[Hl|[Hl|[Hl|[Hl|Hl]]]]]]|[Hoth _]].
+    destruct (Hprops k p Hinp) as [[Hl|[Hl|[Hl|[Hl|[Hl|[Hl|[Hl|Hl]]]]]]]|[Hoth _]].
     + rewrite (gen_str_leaf idf cf defs f self _ p Hl) in Hgen. inversion Hgen; subst ty bp.
       destruct (lookup k kv) as [x|] eqn:El.
       * destruct (Hval k p x Hinp El) as [Hnn [Hstr _]]. apply str_field_present; [exact Hl|exact Hfn|exact El|split; [exact Hnn|exact (Hstr Hl)]].
@@ -492,7 +493,12 @@ Proof.
     + pose proof Hl as [ik Hlk]. destruct (gen_map_leaf f self _ ik p ty bp Hlk Hgen) as [-> ->].
       pose proof (map_field fd fv (s_con s) self fname k ik p kv (scope ++ fname) Hlk Hfn) as Hb.
       destruct (lookup k kv) as [x|] eqn:El.
-      * destruct (Hval k p x Hinp El) as [Hnn [_ [_ [_ Hmv]]]]. exact (Hb Hnn (Hmv Hl)).
+      * destruct (Hval k p x Hinp El) as [Hnn [_ [_ [_ [Hmv _]]]]]. exact (Hb Hnn (Hmv Hl)).
+      * exact Hb.
+    + destruct (gen_int_enum_leaf idf cf defs Hms f self _ p ty bp Hl Hgen) as (l & tbl & He & Ht & -> & ->).
+      pose proof (int_enum_field defs fmt_ok env sdefs fd (S fv) (s_con s) self fname k p l tbl kv (scope ++ fname) Hl He Ht Hfn) as Hb.
+      destruct (lookup k kv) as [x|] eqn:El.
+      * destruct (Hval k p x Hinp El) as (_ & _ & _ & _ & _ & Hiv). exact (Hb (Hiv Hl)).
       * exact Hb.
     + exact (Hother fname k p ty bp Hin Hinp Hoth Hfn Hgen).
 Qed.
@@ -547,7 +553,7 @@ Proof. destruct n; cbn [sobj]; intros (Pp & Pty & Pa & _); (split; [exact Pp|spl
 
 Lemma leaf_not_object p : leaf p -> plain_object p -> c_types (s_con p) = [SObject] -> False.
 Proof.
-  intros Hl (_ & _ & _ & Hprops & _) Pty. destruct Hl as [Hl|[Hl|[Hl|[Hl|[Hl|[Hl|Hl]]]]]].
+  intros Hl (_ & _ & _ & Hprops & _) Pty. destruct Hl as [Hl|[Hl|[Hl|[Hl|[Hl|[Hl|[Hl|Hl]]]]]]].
   - destruct Hl as (c0 & -> & Ht & _). cbn [s_con] in Pty; rewrite Ht in Pty; discriminate.
   - destruct Hl as (c0 & m0 & -> & Ht & _). cbn [s_con] in Pty; rewrite Ht in Pty; discriminate.
   - destruct Hl as (c0 & -> & Ht & _). cbn [s_con] in Pty; rewrite Ht in Pty; discriminate.
@@ -555,14 +561,15 @@ Proof.
   - destruct Hl as (ik0 & c0 & it0 & -> & Ht & _). cbn [s_con] in Pty; rewrite Ht in Pty; discriminate.
   - destruct Hl as (c0 & vs0 & -> & Ht & _). cbn [s_con] in Pty; rewrite Ht in Pty; discriminate.
   - destruct Hl as (ik0 & c0 & a0 & -> & _). apply Hprops. reflexivity.
+  - destruct Hl as (c0 & l0 & -> & Ht & _). cbn [s_con] in Pty; rewrite Ht in Pty; discriminate.
 Qed.
 
 Lemma leaf_not_ref p x : leaf p -> ref_prop p x -> False.
 Proof.
   intros Hl (c & E & Hr & _). subst p.
-  destruct Hl as [Hl|[Hl|[Hl|[Hl|[Hl|[Hl|Hl]]]]]];
+  destruct Hl as [Hl|[Hl|[Hl|[Hl|[Hl|[Hl|[Hl|Hl]]]]]]];
     [destruct Hl as (c0 & E & _ & Hr0 & _)|destruct Hl as (c0 & m0 & E & _ & Hr0 & _)|destruct Hl as (c0 & E & _ & Hr0 & _)|destruct Hl as (c0 & E & _ & Hr0 & _)|destruct Hl as (ik0 & c0 & it0 & E & _ & Hr0 & _)
-    |destruct Hl as (c0 & vs0 & E & _ & Hr0 & _)|destruct Hl as (ik0 & c0 & a0 & E & _ & Hr0 & _)];
+    |destruct Hl as (c0 & vs0 & E & _ & Hr0 & _)|destruct Hl as (ik0 & c0 & a0 & E & _ & Hr0 & _)|destruct Hl as (c0 & l0 & E & _ & Hr0 & _)];
     inversion E; subst; congruence.
 Qed.
 
@@ -583,7 +590,7 @@ Proof.
     cbn [fuelG fuelD fuelV] in *.
     apply (level_with_leaves a b c self sub s scope t bb kv (fun _ => False)); try assumption.
     + intros k p Hin. destruct (Hprops k p Hin) as [Hl|[]]. left; exact Hl.
-    + intros k p x Hin Hl. destruct (Hval k p x Hin Hl) as (H1 & H2 & H3 & H4 & H5 & _). split; [exact H1|split; [exact H2|split; [exact H3|split; [exact H4|exact H5]]]].
+    + intros k p x Hin Hl. destruct (Hval k p x Hin Hl) as (H1 & H2 & H3 & H4 & H5 & H6 & _). split; [exact H1|split; [exact H2|split; [exact H3|split; [exact H4|split; [exact H5|exact H6]]]]].
     + intros fname k p ty bp _ _ [].
   - (* depth m+1 *)
     cbn [sobj] in Hs. destruct Hs as (Hp & Hty & Ha & Haf & Np & Hreq & Nn & Hne & Hprops).
@@ -593,7 +600,7 @@ Proof.
     apply (level_with_leaves (fuelG m a) fdx (S fv') self sub s scope t bb kv (nested_or_ref m)); try assumption.
     + intros k p Hin. destruct (Hprops k p Hin) as [Hl|[[Hn Hd]|Hr]]; [left; exact Hl|right; split; [left; exact Hn|exact Hd]|].
       right. split; [right; exact Hr|]. destruct Hr as (x & d & u & a0 & b0 & Hrp & _). exact (ref_default_none p x Hrp).
-    + intros k p x Hin Hl. destruct (Hval k p x Hin Hl) as (H1 & H2 & H3 & H4 & H5 & _). split; [exact H1|split; [exact H2|split; [exact H3|split; [exact H4|exact H5]]]].
+    + intros k p x Hin Hl. destruct (Hval k p x Hin Hl) as (H1 & H2 & H3 & H4 & H5 & H6 & _). split; [exact H1|split; [exact H2|split; [exact H3|split; [exact H4|split; [exact H5|exact H6]]]]].
     + intros fname k p ty bp Hin Hinp Hother Hfn Hgen. rewrite <- Hfv, <- Hfd.
       destruct Hother as [Hnest|(x & d & u & a0 & b0 & Hrp & Hld & Hls & Hsd & Hidf & Hlu & Hgd)].
       * (* an object written inline: one level down *)
@@ -607,7 +614,7 @@ Proof.
         { destruct m as [|m']; cbn [fuelG] in Hgen; exact (declared_struct_shape _ self false p (scope ++ fname) ty bp Pp Pa Hgen). }
         destruct Hshape as (fs & plan & ->).
         destruct (lookup k kv) as [x|] eqn:El; [|intros Hm; apply nested_field_absent; assumption].
-        destruct (Hval k p x Hinp El) as (Hnn & _ & _ & _ & _ & Hdeep).
+        destruct (Hval k p x Hinp El) as (Hnn & _ & _ & _ & _ & _ & Hdeep).
         rewrite (nested_field_present _ (s_con s) self fname k p _ fs plan bp kv x Hdn Hfn El Hnn).
         destruct x as [| | | | |kv']; try contradiction;
           try (rewrite dec_struct_type by (try discriminate; intros; discriminate); symmetry; rewrite fuelV_Sc; destruct (fuelV_SS m (S c)) as [y ->];
@@ -621,7 +628,7 @@ Proof.
         destruct (fuelG_SSS m a) as [g Hgm]. rewrite Hgm in Hgen.
         pose proof (gen_ref_prop g self (scope ++ fname) p x d ty bp Hrp Hld Pd Pdty Hgen) as ->.
         destruct (lookup k kv) as [v|] eqn:El; [|intros Hm; exact (ref_field_absent _ (s_con s) self fname k p x d bp kv Hrp Hld Pd El Hm)].
-        destruct (Hval k p v Hinp El) as (Hnn & _ & _ & _ & _ & Hdeep).
+        destruct (Hval k p v Hinp El) as (Hnn & _ & _ & _ & _ & _ & Hdeep).
         rewrite (ref_field_present _ (s_con s) self fname k p x d u bp kv v Hrp Hld Pd Hlu Hfn El Hnn).
         rewrite (valid_ref_prop _ p x d v Hrp Hls).
         pose proof Pd as (_ & Pr & _).
@@ -685,10 +692,14 @@ Proof.
   assert (Hnomap : forall k p, In (k, p) (s_props ex_outer) \/ In (k, p) (s_props ex_inner) -> ~ map_leaf p).
   { intros k p Hin (ik & c & a & E & Ht & _). subst p. unfold ex_outer, ex_inner, LevelP.ex_schema, ex_leaf in Hin. cbn [s_props] in Hin.
     destruct Hin as [[Hin|[Hin|[]]]|[Hin|[Hin|[]]]]; inversion Hin. }
+  assert (Hnoie : forall k p, In (k, p) (s_props ex_outer) \/ In (k, p) (s_props ex_inner) -> ~ int_enum_leaf p).
+  { intros k p Hin (c & l & E & Ht & _ & He & _). subst p. unfold ex_outer, ex_inner, LevelP.ex_schema, ex_leaf in Hin. cbn [s_props] in Hin.
+    destruct Hin as [[Hin|[Hin|[]]]|[Hin|[Hin|[]]]]; inversion Hin; subst; discriminate. }
   intros Nk H. cbn [dok]. split; [exact Nk|]. intros k p x Hin Hl. destruct (H k x Hl) as (H1 & H2 & H3).
   split; [exact H1|]. split; [intros _; exact H2|]. split; [intros Hi; exfalso; exact (Hnoint k p (or_introl Hin) Hi)|].
   split; [intros Hi; exfalso; exact (Hnoarr k p (or_introl Hin) Hi)|].
   split; [intros Hi; exfalso; exact (Hnomap k p (or_introl Hin) Hi)|].
+  split; [intros Hi; exfalso; exact (Hnoie k p (or_introl Hin) Hi)|].
   intros kv' ->. split; [|intros y d (c0 & E & Hr & _) _; exfalso; subst p; unfold ex_outer, ex_inner, LevelP.ex_schema, ex_leaf in Hin; cbn [s_props] in Hin;
                          destruct Hin as [Hin|[Hin|[]]]; inversion Hin; subst; discriminate].
   intros _. destruct (H3 kv' eq_refl) as [Nk' H']. split; [exact Nk'|]. intros k' p' x' Hin' Hl'. destruct (H' k' x' Hl') as (G1 & G2).
@@ -696,7 +707,8 @@ Proof.
   { destruct Hin as [Hin|[Hin|[]]]; inversion Hin; subst p; [exact Hin'|destruct Hin']. }
   split; [exact G1|]. split; [intros _; exact G2|]. split; [intros Hi; exfalso; exact (Hnoint k' p' (or_intror Hin2) Hi)|].
   split; [intros Hi; exfalso; exact (Hnoarr k' p' (or_intror Hin2) Hi)|].
-  split; [intros Hi; exfalso; exact (Hnomap k' p' (or_intror Hin2) Hi)|exact I].
+  split; [intros Hi; exfalso; exact (Hnomap k' p' (or_intror Hin2) Hi)|].
+  split; [intros Hi; exfalso; exact (Hnoie k' p' (or_intror Hin2) Hi)|exact I].
 Qed.
 
 Example nested_inhabited :
@@ -755,8 +767,9 @@ Proof.
   - intros (c & E & Ht & _). destruct Hp as [-> | ->]; inversion E; subst c; discriminate.
   - split.
     + intros (c & m & E & Ht & _). destruct Hp as [-> | ->]; inversion E; subst c; discriminate.
-    + split; [intros _ l E y Hy; exact (H2 l y E Hy)|]. split; [|exact I].
-      intros (ik & c & a & E & _). destruct Hp as [-> | ->]; inversion E.
+    + split; [intros _ l E y Hy; exact (H2 l y E Hy)|]. split; [|split; [|exact I]].
+      * intros (ik & c & a & E & _). destruct Hp as [-> | ->]; inversion E.
+      * intros (c & l & E & Ht & _). destruct Hp as [-> | ->]; inversion E; subst c; discriminate.
 Qed.
 
 Example flat_inhabited :
@@ -825,15 +838,17 @@ Proof.
     assert (Hp : p' = ex_leaf 2 0 None \/ p' = ex_leaf 0 3 None) by (destruct Hin' as [Hin'|[Hin'|[]]]; inversion Hin'; auto).
     split; [exact G1|]. split; [intros _; exact G2|]. split.
     - intros (c & m & E & Ht & _). destruct Hp as [-> | ->]; inversion E; subst c; discriminate.
-    - split; [intros (ik & c & it & E & _); destruct Hp as [-> | ->]; inversion E|]. split; [|exact I].
-      intros (ik & c & a & E & _). destruct Hp as [-> | ->]; inversion E. }
+    - split; [intros (ik & c & it & E & _); destruct Hp as [-> | ->]; inversion E|]. split; [|split; [|exact I]].
+      + intros (ik & c & a & E & _). destruct Hp as [-> | ->]; inversion E.
+      + intros (c & l & E & Ht & _). destruct Hp as [-> | ->]; inversion E; subst c; discriminate. }
   intros Nk H. cbn [dok]. split; [exact Nk|]. intros k p x Hin Hl. destruct (H k x Hl) as (H1 & H2 & H3).
   assert (Hp : p = ex_refp \/ p = ex_leaf 0 3 None) by (destruct Hin as [Hin|[Hin|[]]]; inversion Hin; auto).
   split; [exact H1|]. split; [intros _; exact H2|]. split.
   - intros (c & m & E & Ht & _). destruct Hp as [-> | ->]; inversion E; subst c; discriminate.
   - split; [intros (ik & c & it & E & _); destruct Hp as [-> | ->]; inversion E|]. split.
     + intros (ik & c & a & E & _). destruct Hp as [-> | ->]; inversion E.
-    + intros kv' ->. destruct (H3 kv' eq_refl) as [Nk' H']. split.
+    + split; [intros (c & l & E & Ht & _ & He & _); destruct Hp as [-> | ->]; inversion E; subst c; discriminate|].
+      intros kv' ->. destruct (H3 kv' eq_refl) as [Nk' H']. split.
       * intros Hs. exfalso. destruct Hs as (_ & Hty & _). destruct Hp as [-> | ->]; discriminate.
       * intros y d _ Hld. destruct Hp as [-> | ->].
         -- assert (d = ex_inner).
@@ -898,7 +913,8 @@ Proof.
   split; [destruct Hkv as [<-|[<-|[<-|[<-|[]]]]]; vm_compute in Hl; inversion Hl; discriminate|].
   split; [intros (c & E & _ & _ & He & _); inversion E; subst c; discriminate|].
   split; [intros (c & m & E & Ht & _); inversion E; subst c; discriminate|].
-  split; [intros (ik & c & it & E & _); inversion E|]. split; [intros (ik & c & a & E & _); inversion E|exact I].
+  split; [intros (ik & c & it & E & _); inversion E|]. split; [intros (ik & c & a & E & _); inversion E|].
+  split; [intros (c & l & E & Ht & _); inversion E; subst c; discriminate|exact I].
 Qed.
 
 (* ---------- non-vacuity of the map leaf: {labels: map of strings (required)} ---------- *)
@@ -915,7 +931,7 @@ Proof.
   - intros k [H|[]]. subst. left; reflexivity.
   - vm_compute. repeat constructor. intros [].
   - intros fname kp H. vm_compute in H. destruct H as [H|[]]; inversion H; subst; discriminate.
-  - intros k p [H|[]]; inversion H; subst. left. right. right. right. right. right. right.
+  - intros k p [H|[]]; inversion H; subst. left. right. right. right. right. right. right. left.
     exists IStr, (mkC [SObject] None None [] 0 0 0 0 None None (mkBounds None None None None) None None), ex_str_item.
     repeat split; try reflexivity. eexists. repeat split; reflexivity.
 Qed.
@@ -937,6 +953,75 @@ Proof.
   split; [intros (c & E & Ht & _); inversion E; subst c; discriminate|].
   split; [intros (c & m & E & Ht & _); inversion E; subst c; discriminate|].
   split; [intros (ik & c & it & E & _); inversion E|].
-  split; [|exact I].
+  split; [|split; [intros (c & l & E & Ht & _); inversion E; subst c; discriminate|exact I]].
   intros _ kv0 E y Hy. destruct Hkv as [<-|[<-|[<-|[<-|[<-|[]]]]]]; vm_compute in Hl; inversion Hl as [Hx]; rewrite <- Hx in E; inversion E as [Hk0]; rewrite <- Hk0 in Hy; cbn in Hy; intuition (subst; discriminate).
+Qed.
+
+
+(* ---------- non-vacuity of the integer-enum leaf, one level down: {i: {level: integer enum [1, 2.5, 3] (required)}} ---------- *)
+Definition ex_ie_inner : schema :=
+  Sch (mkC [SObject] None None [[108]%N] 0 0 0 0 None None (mkBounds None None None None) None None) [([108]%N, ex_int_enum)] None false None [] [].
+Definition ex_ie_outer : schema :=
+  Sch (mkC [SObject] None None [] 0 0 0 0 None None (mkBounds None None None None) None None) [([105]%N, ex_ie_inner)] None false None [] [].
+Definition ex_ie_nested_docs : list (list (str * json)) :=
+  [[([105]%N, JObj [([108]%N, JInt 1)])]; [([105]%N, JObj [([108]%N, JInt 2)])]; [([105]%N, JObj [([108]%N, JInt 3)])]; [([105]%N, JObj [])]; []].
+
+Lemma ex_ie_inner_sobj : sobj (fun s => s) (mkCfg false false) [] [] [] 0 ex_ie_inner.
+Proof.
+  cbn [sobj]. repeat split; try reflexivity; try discriminate.
+  - repeat constructor. intros [].
+  - intros k [H|[]]. subst. left; reflexivity.
+  - vm_compute. repeat constructor. intros [].
+  - intros fname kp H. vm_compute in H. destruct H as [H|[]]; inversion H; subst; discriminate.
+  - intros k p [H|[]]; inversion H; subst. left. right. right. right. right. right. right. right. exact (proj1 int_enum_generated_inhabited).
+Qed.
+
+Lemma ex_ie_outer_sobj : sobj (fun s => s) (mkCfg false false) [] [] [] 1 ex_ie_outer.
+Proof.
+  cbn [sobj]. repeat split; try reflexivity; try discriminate.
+  - repeat constructor. intros [].
+  - intros k [].
+  - vm_compute. repeat constructor. intros [].
+  - intros fname kp H. vm_compute in H. destruct H as [H|[]]; inversion H; subst; discriminate.
+  - intros k p [H|[]]; inversion H; subst. right. left. split; [exact ex_ie_inner_sobj|reflexivity].
+Qed.
+
+Example int_enum_nested_inhabited :
+  exists t b, Gen.gen (fun s => s) (mkCfg false false) [] (fuelG 1 2) MDeclared None false ex_ie_outer [82]%N = Done (t, b) /\
+    (forall kv, In kv ex_ie_nested_docs ->
+       is_ok (Exec.dec (fun _ _ => true) [] (fuelD 1 0) t (JObj kv)) = Valid.valid (fun _ _ => true) [] (fuelV 1 0) ex_ie_outer (JObj kv)) /\
+    map (fun kv => Valid.valid (fun _ _ => true) [] (fuelV 1 0) ex_ie_outer (JObj kv)) ex_ie_nested_docs = [true; false; true; false; true].
+Proof.
+  eexists. eexists. split; [vm_compute; reflexivity|].
+  assert (Hgen : Gen.gen (fun s => s) (mkCfg false false) [] (fuelG 1 2) MDeclared None false ex_ie_outer [82]%N = Done _) by (vm_compute; reflexivity).
+  split; [|vm_compute; reflexivity].
+  intros kv Hkv.
+  eapply (nested_object_exact (fun s => s) (mkCfg false false) [] (fun _ _ => true) [] [] eq_refl eq_refl 1 2 0 0 None false ex_ie_outer [82]%N _ _ kv); [discriminate|exact ex_ie_outer_sobj| |exact Hgen].
+  assert (Hnl : forall p, p = ex_ie_inner -> ~ str_leaf p /\ ~ int_leaf p /\ ~ arr_leaf p /\ ~ map_leaf p /\ ~ int_enum_leaf p).
+  { intros p ->. repeat split.
+    - intros (c & E & Ht & _); inversion E; subst c; discriminate.
+    - intros (c & m & E & Ht & _); inversion E; subst c; discriminate.
+    - intros (ik & c & it & E & _); inversion E.
+    - intros (ik & c & a & E & _); inversion E.
+    - intros (c & l & E & Ht & _); inversion E; subst c; discriminate. }
+  cbn [dok]. split; [destruct Hkv as [<-|[<-|[<-|[<-|[<-|[]]]]]]; repeat constructor; cbn; intuition discriminate|].
+  intros k p x Hin Hl. destruct Hin as [Hin|[]]. inversion Hin; subst k p.
+  destruct (Hnl ex_ie_inner eq_refl) as (N1 & N2 & N3 & N4 & N5).
+  split; [destruct Hkv as [<-|[<-|[<-|[<-|[<-|[]]]]]]; vm_compute in Hl; inversion Hl; discriminate|].
+  split; [intros Hc; contradiction|]. split; [intros Hc; contradiction|]. split; [intros Hc; contradiction|].
+  split; [intros Hc; contradiction|]. split; [intros Hc; contradiction|].
+  intros kv' E. split; [|intros y d (c0 & E0 & Hr & _) _; inversion E0; subst c0; discriminate].
+  intros _. split.
+  - destruct Hkv as [<-|[<-|[<-|[<-|[<-|[]]]]]]; vm_compute in Hl; inversion Hl as [Hx]; rewrite <- Hx in E; inversion E; repeat constructor; cbn; intuition discriminate.
+  - intros k' p' x' Hin' Hl'. destruct Hin' as [Hin'|[]]. inversion Hin'; subst k' p'.
+    assert (Hx' : x' <> JNull /\ int_value x').
+    { destruct Hkv as [<-|[<-|[<-|[<-|[<-|[]]]]]]; vm_compute in Hl; inversion Hl as [Hx]; rewrite <- Hx in E; inversion E as [Hk]; rewrite <- Hk in Hl';
+        vm_compute in Hl'; inversion Hl'; subst x';
+        (split; [discriminate|split; [discriminate|intros n En; inversion En; subst; eexists; split; reflexivity]]). }
+    destruct Hx' as [Hn Hi].
+    split; [exact Hn|].
+    split; [intros (c & E1 & _ & _ & He & _); inversion E1; subst c; discriminate|].
+    split; [intros (c & m & E1 & _ & _ & He & _); inversion E1; subst c; discriminate|].
+    split; [intros (ik & c & it & E1 & _); inversion E1|]. split; [intros (ik & c & a & E1 & _); inversion E1|].
+    split; [intros _; exact Hi|exact I].
 Qed.
